@@ -42,7 +42,8 @@ both equal to `prepareArgv`.
 Seventh output, lean/Nstd/Generated/ArgsFds.lean: three more FRAGMENTS of `open(executable, argc, argv, streams, environment)`: the parent branch
 `else if (r != 0) { .. }` behind `vfork()`, the child branch up to `if (execvpe(`, the statements behind the label `error:` (the `int ..Fds[2]` arrays
 are two fields each; `::close` / `dup2` act on the descriptor table of Kernel.lean, lean/Nstd/Args/CSemFds.lean); lean/Nstd/Args/PropsOpen.lean proves
-them equal to the components of `Kernel.openFds` / `Kernel.openFdsFailed`.  Not translated: the `pipe()` calls with their `goto error`, the
+them equal to the components of `Kernel.openFds` / `Kernel.openFdsFailed`; and the three statements `if (streams & ..) { if (pipe(..) != 0) goto error; }`
+(`goto error` = the translated error path) = `Kernel.pipesUntilFailure` / `errorPath`.  Not translated: the
 environment preparation, `vfork()` / `execvpe` themselves, and the whole of `start(commandLine)`, `wait`, `interrupt`.
 
 Anything outside the understood subset is REFUSED (exception -> the check reports a broken tie).
@@ -362,6 +363,11 @@ class Parser:
             self.eat("continue")
             self.eat(";")
             return ("continue",)
+        if self.at("goto") and self.peek(1)[0] == "id" and self.at(";", 2):
+            self.eat()
+            lab = self.eat()[1]
+            self.eat(";")
+            return ("goto", lab)
         for kw in ("while", "do", "goto", "try", "throw", "delete", "new"):
             if self.at(kw):
                 raise Refuse(f"{self.fn}: `{kw}` is outside the translated subset")
@@ -590,9 +596,9 @@ LEAN_KEYWORDS = {"end", "at", "from", "fun", "in", "do", "then", "else", "if", "
                  "where", "by", "def", "instance", "structure", "class", "variable", "local", "private", "mutual", "section",
                  "namespace", "import", "theorem", "example", "calc", "for", "return", "unless", "try", "catch", "finally", "mut",
                  "nomatch", "using", "prefix", "infix", "notation", "macro", "syntax", "deriving", "extends", "universe", "set_option"}
-LEAN_TYPE = {"vec": "Vec", "cstrn": "Option (List Nat)", "fdtable": "Kernel.FdTable", "optnat": "Option Nat", "char": "Nat", "fd": "Nat", "fdset": "List Nat", "rsel": "ReadSel.RS", "evs": "List ReadSel.Ev", "penv": "PEnv", "kern": "K", "cptr": "Ptr", "argvp": "Nat", "optp": "Nat", "usize": "Nat", "int": "Int", "bool": "Bool", "string": "List Nat",
+LEAN_TYPE = {"fresh": "Kernel.Fresh", "vec": "Vec", "cstrn": "Option (List Nat)", "fdtable": "Kernel.FdTable", "optnat": "Option Nat", "char": "Nat", "fd": "Nat", "fdset": "List Nat", "rsel": "ReadSel.RS", "evs": "List ReadSel.Ev", "penv": "PEnv", "kern": "K", "cptr": "Ptr", "argvp": "Nat", "optp": "Nat", "usize": "Nat", "int": "Int", "bool": "Bool", "string": "List Nat",
              "strlist": "List (List Nat)"}
-LEAN_DEFAULT = {"vec": "[]", "cstrn": "none", "fdtable": "(fun _ => none)", "optnat": "none", "char": "0", "fd": "0", "fdset": "[]", "rsel": "⟨0, 0, [], [], false, false⟩", "evs": "[]", "penv": "[]", "kern": "⟨[], []⟩", "cptr": "Ptr.null", "argvp": "0", "optp": "0", "usize": "0", "int": "0", "bool": "false", "string": "[]", "strlist": "[]"}
+LEAN_DEFAULT = {"fresh": "⟨0, 0, 0, 0, 0, 0⟩", "vec": "[]", "cstrn": "none", "fdtable": "(fun _ => none)", "optnat": "none", "char": "0", "fd": "0", "fdset": "[]", "rsel": "⟨0, 0, [], [], false, false⟩", "evs": "[]", "penv": "[]", "kern": "⟨[], []⟩", "cptr": "Ptr.null", "argvp": "0", "optp": "0", "usize": "0", "int": "0", "bool": "false", "string": "[]", "strlist": "[]"}
 
 
 def fld(name):
@@ -624,6 +630,8 @@ class Fn:
         self.members = set(members)
         self.proc = False                                      # the Process-object functions: syscalls, casts, errno
         self.sel = False                                       # read(buffer, length, streams): fd_set, select, ::read on a pipe
+        self.labels = {}                                       # label -> Lean text of the jump (fragment translation of open())
+        self.fall = None                                       # what falling off the end of a fragment is
         self.fdsmode = False                                   # fragments of open(): descriptor table ghost, int fds[2] arrays as two fields
         self.vecmode = False                                   # the "prepare argv of child" block: pointer vectors
         self.envfn = False                                     # getEnvironmentVariable: `const char*` = null | the value of a variable
@@ -994,6 +1002,13 @@ class Fn:
         if kind == "bool":
             return (kt if e[1] else kf).text
         ite = lambda c: f"if {c} then\n{ind(kt.text)}\nelse\n{ind(kf.text)}"
+        if (self.fdsmode and kind == "bin" and e[1] == "!=" and e[3] == ("num", 0) and e[2][0] == "call" and e[2][1] == "pipe"
+                and len(e[2][2]) == 1 and e[2][2][0][0] == "var" and e[2][2][0][1] in ("stdoutFds", "stderrFds", "stdinFds")):
+            arr = e[2][2][0][1]
+            num, rd, wr = {"stdoutFds": (0, "outR", "outW"), "stderrFds": (1, "errR", "errW"), "stdinFds": (2, "inR", "inW")}[arr]
+            return (f"if s.calls + 1 = s.failK then\n{ind(kt.text)}\nelse\n"
+                    f"  let s := {{ s with calls := s.calls + 1, tbl := Kernel.mkPipe {num} s.fresh.{rd} s.fresh.{wr} s.tbl, "
+                    f"{arr}0 := s.fresh.{rd}, {arr}1 := s.fresh.{wr} }}\n{ind(kf.text)}")
         if (self.proc and kind == "bin" and e[1] == "==" and e[3] == ("num", 0) and e[2][0] == "call" and e[2][1] in ("unsetenv", "setenv")):
             name, args = e[2][1], e[2][2]
             if (name == "unsetenv" and len(args) != 1) or (name == "setenv" and (len(args) != 3 or args[2] != ("num", 1))):
@@ -1113,6 +1128,10 @@ class Fn:
                     return self.ret_(self.convert("int", ty, term))
                 return self.cexpr(s[1], kr)
             return self.ccond(s[1], K(self.ret_("true")), K(self.ret_("false")))
+        if kind == "goto":
+            if s[1] not in self.labels:
+                raise Refuse(f"{self.name}: goto {s[1]}")
+            return self.labels[s[1]]
         if kind == "break":
             if ctx[0] is None:
                 raise Refuse(f"{self.name}: break outside loop/switch")
@@ -1333,7 +1352,7 @@ class Fn:
 
     def function(self, body, doc):
         self.declare(body)
-        end = "some (.ret () s)" if self.ret == "void" else "none"
+        end = self.fall or ("some (.ret () s)" if self.ret == "void" else "none")
         text = self.cstmts(body, K(end), (None, None))
         self.blocks.append(f"/-- {doc} -/\ndef {self.name} {self.sig()} : Option (Ctl {self.rec} {self.rho()}) :=\n{ind(text)}")
         return self.blocks
@@ -1726,16 +1745,28 @@ def generate_fds(repo):
         raise Refuse("open(): trailing tokens behind the error path")
     vars_ = {"fdStdOutRead": "fd", "fdStdErrRead": "fd", "fdStdInWrite": "fd", "pid": "usize", "r": "usize",
              "stdoutFds0": "fd", "stdoutFds1": "fd", "stderrFds0": "fd", "stderrFds1": "fd", "stdinFds0": "fd", "stdinFds1": "fd",
-             "errno": "int", "tbl": "fdtable"}
+             "errno": "int", "tbl": "fdtable", "streams": "usize", "calls": "usize", "failK": "usize", "fresh": "fresh"}
+    ik = find(["if", "(", "streams", "&", "stdoutStream", ")"], "`if (streams & stdoutStream)`")
+    pk = Parser(list(body[ik:]), "openPipes")
+    pipes = [pk.stmt(), pk.stmt(), pk.stmt()]
+    for st, flag in zip(pipes, ("stdoutStream", "stderrStream", "stdinStream")):
+        if st[0] != "if" or st[1] != ("bin", "&", ("var", "streams"), ("var", flag)) or st[3] is not None:
+            raise Refuse(f"open(): the three statements that create the pipes are not `if (streams & {flag}) ..`")
+    hppt = posix_branch(scan((Path(repo) / "include/nstd/Process.hpp").read_text()))
+    streamflags = option_flags(hppt, "Stream")
     out = ["/- generated by tools/gen_args.py from src/Process.cpp — do not edit -/", "import Nstd.Args.CSemFds", "",
            "set_option linter.unusedVariables false", "", "namespace Nstd.Args.GenF", "open Nstd.Args Nstd.Args.C", ""]
     allvars = None
     defs = []
     for name, ret, frag, doc in (("openParent", "bool", [parent], "the parent branch `else if (r != 0) { .. }` behind `vfork()`"),
                                  ("openChild", "void", child, "the child branch `else { .. ` up to `if (execvpe(`"),
-                                 ("openError", "bool", error, "the path behind the label `error:`")):
-        f = Fn(name, "FS", ret, vars_, {}, {}, False, ["fdStdOutRead", "fdStdErrRead", "fdStdInWrite", "pid"])
+                                 ("openError", "bool", error, "the path behind the label `error:`"),
+                                 ("openPipes", "bool", pipes, "the three statements `if (streams & ..) { if (pipe(..) != 0) goto error; }`")):
+        f = Fn(name, "FS", ret, vars_, {}, streamflags, False, ["fdStdOutRead", "fdStdErrRead", "fdStdInWrite", "pid"])
         f.proc = f.fdsmode = True
+        if name == "openPipes":
+            f.labels = {"error": "openError E s"}
+            f.fall = "some (.next s)"
         frag = rename_locals(frag, ["err"], name) if name == "openError" else frag
         blocks = f.function(frag, doc + " in `Process::open(executable, argc, argv, streams, environment)`")
         extra = {k: v for k, v in f.vars.items() if k not in vars_}
@@ -1748,7 +1779,8 @@ def generate_fds(repo):
     fvars = dict(vars_)
     fvars["err"] = "int"
     out += ["/-- the members, `r` (what `vfork()` returned in the parent), the three `int ..Fds[2]` arrays (two fields each), `errno`, `err`,\n"
-            "    the descriptor table (ghost) -/",
+            "    the descriptor table (ghost), `streams`; for the `pipe()` calls: the number of calls made, which call fails (0 = none),\n"
+            "    the descriptors the kernel hands out -/",
             "structure FS where\n" + "".join(f"  {fld(v)} : {LEAN_TYPE[t]}\n" for v, t in fvars.items()), "\n\n".join(defs), "",
             "end Nstd.Args.GenF", ""]
     return "\n".join(out)
@@ -1830,7 +1862,7 @@ def gen(ctx):
                                             "read(buffer, length, streams)", "String::length", "String::find(const char*, char)",
                                             "String::compare(const char*, const char*, usize)", "daemonize",
                                             "the 'prepare argv of child' statement of start(program, argc, argv, env) and open(executable, argc, argv, streams, env)",
-                                            "open(): the parent branch behind vfork(), the child branch up to execvpe, the error: path"]}
+                                            "open(): the pipe()-creating statements with goto error, the parent branch behind vfork(), the child branch up to execvpe, the error: path"]}
     if ok:
         ctx.notes.append(f"translator: Nstd/Generated/ArgsCode.lean, ArgsProc.lean, ArgsSel.lean, ArgsStr.lean, ArgsDmn.lean, ArgsVec.lean, ArgsFds.lean regenerated from the current Process.cpp / Process.hpp / String.hpp (sha1 {msg})")
     return ok, msg
